@@ -772,6 +772,11 @@ func isAggregationFunction(expr string) bool {
 		return false
 	}
 
+	// A SQL keyword in front of a parenthesis, e.g. NOT (a = b), is syntax and not a call
+	if isKeyword(strings.ToUpper(funcName)) {
+		return false
+	}
+
 	// If not registered function and not expr-lang function, but contains parentheses, conservatively assume it might be aggregation function
 	if strings.Contains(expr, "(") && strings.Contains(expr, ")") {
 		return true
